@@ -247,7 +247,8 @@ def make_build(unit, N, count, h):
 
 
 def instances(tier):
-    return [1, 2, 3, 8] if tier == 'quick' else [1, 2, 3, 4, 8, 16]
+    # N = 16 does not finish in 15 min (get and append); thorough adds more sizes up to 10 instead
+    return [1, 2, 3, 8] if tier == 'quick' else [1, 2, 3, 4, 5, 6, 8, 10]
 
 
 def jobs(unit, tier, only=None):
@@ -260,7 +261,7 @@ def jobs(unit, tier, only=None):
                 continue
             for h, fn in HARNESSES:
                 out.append(Job('c19_N%d_%s_%s' % (N, 'count' if count else 'empty', h[2:]), fn, 'INV + postconditions (harness)',
-                               make_build(unit, N, count, h), backend='sat', unwind=(2 * N + 4) if h.startswith('h_rb') else (4 * N + 6), timeout=900, mode='harness',
+                               make_build(unit, N, count, h), backend='sat', unwind=(2 * N + 4) if h.startswith('h_rb') else (4 * N + 6), timeout=900 if tier == 'quick' else 2400, mode='harness',
                                instance={'N': N, 'policy': 'count' if count else 'empty'},
                                extra_flags=['--drop-unused-functions']))
     if only:
